@@ -66,6 +66,7 @@ type World struct {
 	lexProg              []*lbOb
 	lexProgDone          bool
 	posSumDone           bool
+	posEndRaw            bool // (*File).Position stores its `end` parameter unchanged in Position.End
 	tableDepth           int
 	synonyms             map[string]string
 	pkgInits             map[string]*concr
